@@ -151,7 +151,13 @@ fn program(rng: &mut Rng, bin: bool, fixed_cols: Option<&Vec<Column>>) -> (QProg
 pub fn generate(rng: &mut Rng, max_cmds: usize) -> Mega {
     let mut conv = Conv::default();
     let mut exps: Vec<Option<ExpResp>> = Vec::new();
-    let ids = [3u32, 0x0102_0304, 77];
+    // statement ids are the backend's to choose: ordinary ones, or the edges of the 32-bit range (where
+    // an in-band marker such as "-1 = the statement prepared last" would collide with a real statement)
+    let ids = match rng.below(4) {
+        0 => [u32::MAX, 7, 0],
+        1 => [0x8000_0000u32, u32::MAX, u32::MAX - 1],
+        _ => [3u32, 0x0102_0304, 77],
+    };
     // live[k] = (nparams, result columns, bound types?, pending long-data indexes)
     let mut live: [Option<(usize, Vec<Column>)>; 3] = [None, None, None];
     let mut bound: [Option<Vec<(u8, bool)>>; 3] = [None, None, None];
